@@ -835,7 +835,7 @@ try
 		  ++count;
 	      }
 
-	    if (show_count)
+	    if (show_count && verbosity >= 0)
 	      {
 		if (with_header)
 		  std::cout << header << ":";
